@@ -99,6 +99,38 @@ MUTANTS = [
  ('c17_kruskal_inverted', 'C17', 'src/solver/chordal/merge/clique_graph.rs', '        if !connected_c.in_same_set(row, col) {', '        if connected_c.in_same_set(row, col) {'),
  ('c20_println_debug', 'C20', R + 'core/solver.rs', '            if is_scaling_success {\n                StrategyCheckpoint::NoUpdate', '            if is_scaling_success {\n                println!("scaling ok");\n                StrategyCheckpoint::NoUpdate'),
  ('c20_header_wrong_m', 'C20', D + 'info_print.rs', 'writeln!(out, "  constraints   = {}", data.m)?;', 'writeln!(out, "  constraints   = {}", data.n)?;'),
+ ('c14_exp_barrier_div', 'C14', R + 'core/cones/expcone.rs', '        -(-z[2] * z[0]).logsafe() - (z[1] - z[0] - z[0] * l).logsafe()', '        -(-z[2] / z[0]).logsafe() - (z[1] - z[0] - z[0] * l).logsafe()'),
+ ('c14_pow_hessian_22_sign', 'C14', R + 'core/cones/powcone.rs', '        H[(2, 2)] = gψ[2] * gψ[2] + two / ψ;', '        H[(2, 2)] = gψ[2] * gψ[2] - two / ψ;'),
+ ('c13_soc_dense_diag_minus', 'C13', R + 'core/cones/socone.rs', '                Hsblock[hidx - 1] += T::one()', '                Hsblock[hidx - 1] -= T::one()'),
+ ('c17_connect_skip_first', 'C17', 'src/solver/chordal/chordal_info.rs', '    for j in 0..(n - 1) {\n        let row_val = &L.rowval;', '    for j in 1..(n - 1) {\n        let row_val = &L.rowval;'),
+ ('c17_connect_superdiagonal', 'C17', 'src/solver/chordal/chordal_info.rs', '            L.set_entry((j + 1, j), T::one());', '            L.set_entry((j, j + 1), T::one());'),
+ ('c11_genpow_q_with_p_coef', 'C11', R + 'core/cones/genpowcone.rs', '            *y = d1 * x - coef_q * q;', '            *y = d1 * x - coef_p * q;'),
+ ('c08_tuple_matrix_wrong_scale', 'C08', D + 'data_updating.rs', '                M.nzval[idx] = lscale[row] * rscale[col] * c * value;', '                M.nzval[idx] = lscale[col] * rscale[row] * c * value;'),
+ ('c15_backtrack_return_next', 'C15', R + 'core/cones/nonsymmetric_common.rs', '        if is_in_cone_fcn(work) {\n            break;\n        }\n        α *= step;', '        let ok = is_in_cone_fcn(work);\n        α *= step;\n        if ok {\n            α /= step * step;\n            break;\n        }'),
+ ('c20_conedims_single_last', 'C20', D + 'info_print.rs', '        write!(out, "{})", nvars[nvars.len() - 1])?;', '        write!(out, "{})", nvars[nvars.len() - 2])?;'),
+ ('c04_scaling_checkpoint_update', 'C04', R + 'core/solver.rs', '            if is_scaling_success {\n                StrategyCheckpoint::NoUpdate\n            } else {', '            if is_scaling_success {\n                StrategyCheckpoint::NoUpdate\n            } else if _scaling == ScalingStrategy::PrimalDual {\n                StrategyCheckpoint::Update(ScalingStrategy::Dual)\n            } else {'),
+ ('c16_gemvN_drops_alpha', 'C16', 'src/algebra/csc/matrix_math.rs', '                y[A.rowval[i]] += a * A.nzval[i] * *xj;', '                y[A.rowval[i]] += A.nzval[i] * *xj;'),
+ ('c16_gemvT_minus_path_adds', 'C16', 'src/algebra/csc/matrix_math.rs', '                *yj -= A.nzval[k] * x[A.rowval[k]];', '                *yj += A.nzval[k] * x[A.rowval[k]];'),
+ ('c16_gemvT_uses_col_x', 'C16', 'src/algebra/csc/matrix_math.rs', '                *yj += a * A.nzval[k] * x[A.rowval[k]];', '                *yj += a * A.nzval[k] * x[j];'),
+ ('c16_symv_doubles_diagonal', 'C16', 'src/algebra/csc/matrix_math.rs', '                *y.get_unchecked_mut(row) += a * Aij * xcol;\n                if row != col {', '                *y.get_unchecked_mut(row) += a * Aij * xcol;\n                if row <= col {'),
+ ('c16_quadform_tmp2_x', 'C16', 'src/algebra/csc/matrix_math.rs', '                tmp2 += Mv * y[row];', '                tmp2 += Mv * x[row];'),
+ ('c16_quadform_close_swapped', 'C16', 'src/algebra/csc/matrix_math.rs', '        out += tmp1 * y[col] + tmp2 * x[col];', '        out += tmp1 * x[col] + tmp2 * y[col];'),
+ ('c16_lrscale_drops_r', 'C16', 'src/algebra/csc/matrix_math.rs', '                *val *= l[*row] * ri;', '                *val *= l[*row];'),
+ ('c16_row_norms_no_abs', 'C16', 'src/algebra/csc/matrix_math.rs', '            norms[*row] = T::max(norms[*row], T::abs(*val));', '            norms[*row] = T::max(norms[*row], *val);'),
+ ('c16_col_norms_sym_one_side', 'C16', 'src/algebra/csc/matrix_math.rs', '                norms[r] = T::max(norms[r], tmp);\n', ''),
+ ('c16_beta_zero_skips_fill', 'C16', 'src/algebra/csc/matrix_math.rs', 'fn _csc_axpby_T<T: FloatT>(A: &CscMatrix<T>, y: &mut [T], x: &[T], a: T, b: T) {\n    //first do the b*y part\n    if b == T::zero() {\n        y.fill(T::zero());\n    } else if b == T::one() {', 'fn _csc_axpby_T<T: FloatT>(A: &CscMatrix<T>, y: &mut [T], x: &[T], a: T, b: T) {\n    //first do the b*y part\n    if b == T::zero() || b == T::one() {'),
+ ('c16_rscale_next_column', 'C16', 'src/algebra/csc/matrix_math.rs', '            vals[colptr[i]..colptr[i + 1]].scale(r[i]);', '            vals[colptr[i]..colptr[i + 1]].scale(r[i + 1 - 1 + 0]);'),
+ ('c16_gemv_routes_T', 'C16', 'src/algebra/csc/matrix_math.rs', 'impl<T: FloatT> MatrixVectorMultiply<T> for CscMatrix<T> {\n    fn gemv(&self, y: &mut [T], x: &[T], a: T, b: T) {\n        _csc_axpby_N(self, y, x, a, b);', 'impl<T: FloatT> MatrixVectorMultiply<T> for CscMatrix<T> {\n    fn gemv(&self, y: &mut [T], x: &[T], a: T, b: T) {\n        _csc_axpby_N(self, y, x, b, a);'),
+ ('c15_nn_ratio_le', 'C15', R + 'core/cones/nonnegativecone.rs', '            if ds[i] < T::zero() {\n                αs = T::min(αs, -s[i] / ds[i]);', '            if ds[i] <= T::zero() {\n                αs = T::min(αs, -s[i] / ds[i]);'),
+ ('c15_nn_ratio_wrong_vector', 'C15', R + 'core/cones/nonnegativecone.rs', '                αz = T::min(αz, -z[i] / dz[i]);', '                αz = T::min(αz, -s[i] / dz[i]);'),
+ ('c09_row_cursor_skip_plus_one', 'C09', D + 'presolver.rs', '            // skip this cone\n            idx += numel_cone;', '            // skip this cone\n            idx += 1;'),
+ ('c13_soc_identity_u0_one', 'C13', R + 'core/cones/socone.rs', '            sparse_data.u[0] = T::FRAC_1_SQRT_2();\n            sparse_data.v.fill(T::zero());', '            sparse_data.u[0] = T::one();\n            sparse_data.v.fill(T::zero());'),
+ ('c17_purge_only_survivor', 'C17', 'src/solver/chordal/merge/clique_graph.rs', '        for set in adjacency_table.values_mut() {\n            set.shift_remove(&c_removed);\n        }', '        if let Some(set) = adjacency_table.get_mut(&c_1_ind) {\n            set.shift_remove(&c_removed);\n        }'),
+ ('c17_decode_lt_one', 'C17', 'src/solver/chordal/supernode_tree.rs', '        let k: isize = {\n            if snode_index[v] < 0 {', '        let k: isize = {\n            if snode_index[v] < 1 {'),
+ ('c17_kruskal_before_weights', 'C17', 'src/solver/chordal/merge/clique_graph.rs', '        clique_intersections(&mut self.edges, &t.snode);\n\n        // find a maximum weight spanning tree of the clique graph using Kruskal\'s algorithm\n        kruskal(&mut self.edges, t.n_cliques);', '        // find a maximum weight spanning tree of the clique graph using Kruskal\'s algorithm\n        kruskal(&mut self.edges, t.n_cliques);\n        clique_intersections(&mut self.edges, &t.snode);'),
+ ('c18_reverse_cone_z_from_s', 'C18', 'src/solver/chordal/decomp/reverse_compact.rs', '                new_z[row_range.start + offset] = old_z[row_ptr + counter];', '                new_z[row_range.start + offset] = old_z[row_ptr + offset];'),
+ ('c04_footer_like_duration_on_setting', 'C04', D + 'info_print.rs', '                format!("{:?}", set.time_limit)', '                format!("{:?}", Duration::from_secs_f64(set.time_limit).as_secs_f64())'),
+ ('c14_pow_unit_init_copy_early', 'C14', R + 'core/cones/genpowcone.rs', '        s[dim1..].set(T::zero());\n\n        z.copy_from(s);', '        z.copy_from(s);\n        s[dim1..].set(T::zero());'),
  ('c18_cones_stale', 'C18', D + 'problemdata.rs', '            cones_new.as_ref().unwrap_or(&cones),\n            settings,\n        );', '            &cones,\n            settings,\n        );'),
 ]
 
